@@ -353,28 +353,35 @@ def init (h : Heap) (ffid : Nat) (uri mdata : InStr) (px py : Nat) (ndims : Nat)
   let o := { r.2.1 with firstFrameId := ffid, pxX := px, pxY := py }
   if ndims > 0 then dimensionsInit r.1 o ndims else (r.1, o, true)
 
-/-- `storage_properties_copy` (repaired) -/
-def copy (h : Heap) (dst src : Obj) : Heap × Obj × Bool :=
-  -- 1. everything except the strings and the dimensions
-  let dst := { src with uri := dst.uri, mdata := dst.mdata, akey := dst.akey, skey := dst.skey,
-                        dimsData := dst.dimsData, dimsSize := dst.dimsSize }
-  -- 2. the strings
+/-- step 2 of `storage_properties_copy`: "Reallocate and copy the Strings" -/
+def copyStrings (h : Heap) (dst src : Obj) : Heap × Obj × Bool :=
   let r := setStr h dst .uri src.uri
   if !r.2.2 then r else
   let r := setStr r.1 r.2.1 .mdata src.mdata
   if !r.2.2 then r else
   let r := setStr r.1 r.2.1 .akey src.akey
   if !r.2.2 then r else
-  let r := setStr r.1 r.2.1 .skey src.skey
-  if !r.2.2 then r else
-  -- 3. the dimensions
-  let d := if r.2.1.dimsData ≠ none then dimensionsDestroy r.1 r.2.1 else (r.1, r.2.1)
+  setStr r.1 r.2.1 .skey src.skey
+
+/-- step 3 of `storage_properties_copy` (repaired): release dst's dimensions, duplicate src's -/
+def copyDims (h : Heap) (dst src : Obj) : Heap × Obj × Bool :=
+  let d := if dst.dimsData ≠ none then dimensionsDestroy h dst else (h, dst)
   if src.dimsData ≠ none then
     let i := dimensionsInit d.1 d.2 src.dimsSize
     if !i.2.2 then i else
     let l := copyLoop i.1 i.2.1.dimsData src.dimsData 0 src.dimsSize
     (l.1, i.2.1, l.2)
   else (d.1, d.2, true)
+
+/-- step 1 of `storage_properties_copy` (repaired): everything except the strings and the dimensions -/
+def copyScalars (dst src : Obj) : Obj :=
+  { src with uri := dst.uri, mdata := dst.mdata, akey := dst.akey, skey := dst.skey,
+             dimsData := dst.dimsData, dimsSize := dst.dimsSize }
+
+/-- `storage_properties_copy` (repaired) -/
+def copy (h : Heap) (dst src : Obj) : Heap × Obj × Bool :=
+  let r := copyStrings h (copyScalars dst src) src
+  if !r.2.2 then r else copyDims r.1 r.2.1 src
 
 /-- the string loop of `storage_properties_destroy` -/
 def destroyStr (h : Heap) (o : Obj) (f : Field) : Heap × Obj :=
